@@ -20,6 +20,7 @@ import Driver.AstTrace
 import Driver.Attribute
 import Driver.ExtDecline
 import Driver.Convert
+import Driver.ConvertH
 namespace Driver
 
 def handle (line : String) : String :=
@@ -47,6 +48,7 @@ def handle (line : String) : String :=
   | "attribute" :: rest => handleAttribute rest
   | "extdecline" :: rest => handleExtDecline rest
   | "convert" :: rest => handleConvert rest
+  | "converth" :: rest => handleConvertH rest
   | _ => bad
 
 partial def loop (hin hout : IO.FS.Stream) : IO Unit := do
